@@ -13,13 +13,15 @@ PROP = {
     "trusted_base": BASE_TB + [
         "Model/Document.lean is a functional model: the json-layer mutation of the clone and Execute on the root are the same function there; their agreement on the real code (incl. aliasing between clone and root, which no functional model can exhibit) is what the correspondence compares: clone Marshal and root Marshal are diffed against the model separately after every step",
         "the operations a failing callback performed are captured on a deep copy of the document (InternalDocument.DeepCopy) driven by the same PRNG stream",
+        "the harness reads the unexported fields Document.updating, Document.history.undoStack/redoStack by reflection (read only); a renamed field shows up as `updating=unobservable` (a correspondence failure, i.e. a request to update the harness)",
+        "the control document of the unwinding oracle is a second real Document fed the same callbacks, remote packs and acknowledgements (same actor, same PRNG seeds) minus the failed updates",
     ],
-    "level_text": "Lean theorems over every history of updates (successful, failing or panicking at any position, rejected by the size limit), remote packs, snapshots and acknowledgements: clone == root (clone_eq_root) and a failed update is a no-op on root, pending changes and change counter (update_failure_noop); tied to pkg/document/document.go by differential replay of Update with injected callback failures.",
-    "level_note": "Trusted: Lean kernel; hand-written Model/Document.lean + Model/Crdt.lean agree with the Go code as far as the docupd/crdt engines exercise them; schema-validation rejections are represented by the size-limit rejection (same code path: clone dropped, error returned); undo-history preservation across failed updates is checked only through CanUndo-independent observables here (undo is C14).",
+    "level_text": "Lean theorems over every history of updates (successful, failing or panicking at any position, rejected by the size limit), remote packs, snapshots and acknowledgements: clone == root (clone_eq_root), a failed update is a no-op on root, pending changes and change counter (update_failure_noop), and after EVERY update outcome – a panicking callback included – the `updating` flag is lowered, so Undo/Redo/ClearHistory do not refuse and CanUndo/CanRedo report the stacks (failed_update_keeps_history_usable, history_usable_after_every_history); tied to pkg/document/document.go by differential replay of Update with injected callback failures: root, clone, pending changes and the `updating` flag (read by reflection) are compared with the model after every step; oracle: CanUndo/CanRedo and both stack depths are unchanged by a failed update, and in 40% of the traces a control document that receives the same history WITHOUT the failed updates must agree with the document while both histories are unwound and replayed (Undo*, Redo*).",
+    "level_note": "Trusted: Lean kernel; hand-written Model/Document.lean + Model/Crdt.lean agree with the Go code as far as the docupd/crdt engines exercise them; schema-validation rejections are represented by the size-limit rejection (same code path: clone dropped, error returned); the CONTENT of the undo/redo stacks is not in Model/Document.lean (undo is C14): its preservation across failed updates is an oracle (stack depths by reflection + lockstep unwinding against a control document), the flag that makes the history usable is modelled and proved.",
     "technique": "Lean 4 proof (invariant over update histories) + differential replay of Document.Update with failing/panicking callbacks",
     "partial": ["aliasing between clone and root (shallow DeepCopy) cannot be excluded by a functional model: detected by correspondence only",
                 "schema-rule rejection is exercised through the size-limit branch only",
-                "undo/redo stacks across failed updates: covered by C14's engine, not here"],
+                "undo/redo stack CONTENTS across failed updates: not modelled here (C14); checked by the oracle against a control document that never saw the failed updates"],
     "not_modelled": ["text/tree operations inside updates (opaque in Model/Crdt.lean)"],
     "assumptions": ["the callback's effect on the clone is determined by the operations it records (json layer == Execute), checked per step by the crdt engine"],
 }
